@@ -1,8 +1,8 @@
 package vsim
 
 import (
-	"github.com/uber/tchannel-go/simrt"
 	"fmt"
+	"github.com/uber/tchannel-go/simrt"
 	"sync"
 	"time"
 
@@ -63,13 +63,16 @@ func famRawClient(w *World) {
 		}
 	}
 	type destPlan struct {
-		delay time.Duration
-		kind  int
+		delay   time.Duration
+		kind    int
+		breakA1 bool      // the response's first frame ends right after (the empty) arg1
+		sent    [3][]byte // what a complete response carried
 	}
 	plans := map[string]*destPlan{}
 	if topo == 2 {
 		// raw destination behind the relay
 		rd := w.newRawPeer("rawdst", "10.0.8.1")
+		var dstQ sendLock // the destination's responders share one socket: whole frames only
 		hp := rd.Listen(6000, func(c *RawConn) {
 			if err := c.ServerHandshake("10.0.8.1:6000"); err != nil {
 				return
@@ -89,34 +92,40 @@ func famRawClient(w *World) {
 				}
 				id := f.ID
 				go func() {
+					dstSend := func(b []byte) error {
+						var err error
+						dstQ.do(func() { err = c.Send(b) })
+						return err
+					}
 					sleep(p.delay)
-					res := wire.EncCall(wire.CallSpec{Type: wire.TCallRes, ID: id, CsumType: wire.CsumCRC32, MaxFrame: 200 + app(300),
-						Args: [3][]byte{nil, []byte("r;" + tag + "\n"), payload(tag, 13, 500+app(1500))}})
+					args := [3][]byte{nil, []byte("r;" + tag + "\n"), payload(tag, 13, 500+app(1500))}
+					p.sent = args
+					res := wire.EncCall(wire.CallSpec{Type: wire.TCallRes, ID: id, CsumType: wire.CsumCRC32, MaxFrame: 200 + app(300), BreakAfterArg1: p.breakA1, Args: args})
 					switch p.kind {
 					case 0: // complete response
 						for _, b := range res {
-							c.Send(b)
+							dstSend(b)
 						}
 					case 1: // first fragments, then silence
 						for _, b := range res[:len(res)/2] {
-							c.Send(b)
+							dstSend(b)
 						}
 					case 2: // complete response, then the last frame again and an error (peer.dup)
 						for _, b := range res {
-							c.Send(b)
+							dstSend(b)
 						}
-						c.Send(res[len(res)-1])
-						c.Send(wire.EncError(id, wire.ErrUnexpected, wire.Span{}, "dup"))
+						dstSend(res[len(res)-1])
+						dstSend(wire.EncError(id, wire.ErrUnexpected, wire.Span{}, "dup"))
 						w.Net.Fired["peer.dup"]++
 					case 3: // error, then a response anyway (peer.late)
-						c.Send(wire.EncError(id, wire.ErrBusy, wire.Span{}, "busy"))
+						dstSend(wire.EncError(id, wire.ErrBusy, wire.Span{}, "busy"))
 						for _, b := range res {
-							c.Send(b)
+							dstSend(b)
 						}
 						w.Net.Fired["peer.late"]++
 					case 4: // two error frames
-						c.Send(wire.EncError(id, wire.ErrBusy, wire.Span{}, "busy"))
-						c.Send(wire.EncError(id, wire.ErrDeclined, wire.Span{}, "again"))
+						dstSend(wire.EncError(id, wire.ErrBusy, wire.Span{}, "busy"))
+						dstSend(wire.EncError(id, wire.ErrDeclined, wire.Span{}, "again"))
 						w.Net.Fired["peer.dup"]++
 					default: // never answers
 						w.Net.Fired["peer.silent"]++
@@ -149,6 +158,7 @@ func famRawClient(w *World) {
 		timeout bool // the destination will not finish within the (clamped) ttl
 		sent    bool
 		sentAt  time.Duration // when the first frame (which carries the ttl) was written
+		delay   time.Duration // how long the handler sits on it
 	}
 	var reqs []*reqPlan
 	maxTTL := time.Duration(0)
@@ -204,17 +214,33 @@ func famRawClient(w *World) {
 				ttl += 20 * w.Grid
 			}
 		}
-		p := &reqPlan{id: uint32(i + 1), tag: tag, at: time.Duration(scn(10)) * w.Grid, ttl: ttl}
+		p := &reqPlan{id: uint32(i + 1), tag: tag, at: time.Duration(scn(10)) * w.Grid, ttl: ttl, delay: rec.Spec.Delay}
 		if slow && i > 0 && slowAlone {
 			// the other requests come once the first one's fate is sealed
 			p.at += reqs[0].at + reqs[0].ttl
 		}
 		if topo == 2 {
-			dp := &destPlan{delay: delay, kind: scn(6)}
+			dp := &destPlan{delay: delay, kind: scn(6), breakA1: scnChance(1, 3)}
 			plans[tag] = dp
 		}
 		if scnChance(1, 5) && !(slow && i == 0) {
 			p.cancel = time.Duration(scn(30)) * w.Grid
+		}
+		if topo == 0 && !slow && i > 0 && scnChance(1, 5) {
+			// a caller that reuses the id of a request it still has in flight: whatever the
+			// server makes of that, the wire still carries at most one terminal frame per id
+			var busy []*reqPlan
+			for _, q := range reqs {
+				if q.delay >= 5*w.Grid {
+					busy = append(busy, q)
+				}
+			}
+			if len(busy) > 0 {
+				q := busy[scn(len(busy))]
+				p.id = q.id
+				p.at = q.at + time.Duration(1+scn(3))*w.Grid
+				w.Net.Fired["peer.duplicate-id"]++
+			}
 		}
 		arg2 := append([]byte(rec.cmd()+"\n"), payload(tag, 2, scn(2000))...)
 		spec := wire.CallSpec{Type: wire.TCallReq, ID: p.id, TTL: uint32(ttl / time.Millisecond), Service: service,
@@ -336,6 +362,27 @@ func famRawClient(w *World) {
 							w.violate("C10", "relay-timeout-wrong-code", "request %s (id %d): destination never completed, caller got error code %#x instead of timeout", p.tag, p.id, f.ErrCode)
 						}
 					}
+				}
+			}
+			if dp.kind == 0 && errs == 0 && resLast == 1 && dp.sent[1] != nil {
+				// C08: what the destination produced is what the caller got, frame layout aside
+				w.eval("C08.raw-destination-response")
+				re := wire.NewReassembler()
+				startsWithCallRes, nres := false, 0
+				for _, f := range rc.Got {
+					if f.ID == p.id && (f.Type == wire.TCallRes || f.Type == wire.TCallResCont) {
+						if nres == 0 {
+							startsWithCallRes = f.Type == wire.TCallRes
+						}
+						nres++
+						re.Add(f)
+					}
+				}
+				if !startsWithCallRes {
+					w.violate("C08", "relayed-response-differs", "request %s (id %d): the raw destination sent a complete response (first frame ends after arg1: %v); what the relay passed on does not begin with a call res frame (its response code, tracing and transport headers are lost)", p.tag, p.id, dp.breakA1)
+				} else if re.Err != nil || !re.Done || string(re.Args[1]) != string(dp.sent[1]) || string(re.Args[2]) != string(dp.sent[2]) {
+					w.violate("C08", "relayed-response-differs", "request %s (id %d): the raw destination sent a complete response (first frame ends after arg1: %v); what the relay passed on reassembles to err=%v done=%v arg2 %s arg3 %s",
+						p.tag, p.id, dp.breakA1, re.Err, re.Done, diffDesc(re.Args[1], dp.sent[1]), diffDesc(re.Args[2], dp.sent[2]))
 				}
 			}
 			if errs+resLast > 1 {
